@@ -207,6 +207,7 @@ class Circuit:
                 "Add method only supported for Circuit or Unitary objects."
             )
         # Remap mode
+        user_mode = mode
         mode = self._map_mode(mode)
         self._mode_in_range(mode)
         # Make copy of circuit to avoid modification
@@ -233,9 +234,11 @@ class Circuit:
         else:
             circuit = circuit.copy()
         spec = circuit.__circuit_spec
-        # Check circuit size is valid
+        # Check circuit size is valid, counting only modes which can be
+        # addressed (i.e. excluding the internal modes of existing groups)
         n_heralds = len(circuit.heralds["input"])
-        if mode + circuit.n_modes - n_heralds > self.n_modes:
+        n_user_modes = self.n_modes - len(self.__internal_modes)
+        if user_mode + circuit.n_modes - n_heralds > n_user_modes:
             raise ModeRangeError("Circuit to add is outside of mode range")
 
         # Include any existing internal modes into the circuit to be added
